@@ -7,12 +7,12 @@ Import ListNotations.
 Open Scope Z_scope.
 
 (* what a sequential pass of the specification reader sees at event number ev *)
-Definition spec_events (st : wstate) (evs : list Z) : list (Z * per tobs) :=
-  map (fun ev => (ev, read_obs st ev)) evs.
+Definition spec_events (st : wstate) (evs : list Z) : list (Z * (per tobs * tobs)) :=
+  map (fun ev => (ev, read_all_obs st ev)) evs.
 
 (* the file can be opened for event reading: invariant + particles group with total_thrown *)
 Definition readable (st : wstate) : Prop :=
-  inv st /\ ex st P = true /\ thrown st <> None /\ 1 <= n_events st.
+  inv st /\ ana_ok st /\ ex st P = true /\ thrown st <> None /\ 1 <= n_events st.
 
 (* ------------------------------------------------------------------ the range of a slice *)
 Lemma zseq_succ : forall m, 0 <= m -> zseq (m + 1) = 0 :: map (fun j => j + 1) (zseq m).
@@ -64,7 +64,7 @@ Qed.
 (* ------------------------------------------------------------------ iteration with any chunk size *)
 Lemma iter_init_all : forall st, readable st -> iter_init st None None None = inr (0, n_events st, 1).
 Proof.
-  intros st [I [HP [HT Hn]]]. unfold iter_init. unfold ex in HP. rewrite HP.
+  intros st [I [Hok [HP [HT Hn]]]]. unfold iter_init. unfold ex in HP. rewrite HP.
   destruct (thrown st) eqn:Et; [| congruence]. simpl.
   destruct (n_events st <? 0) eqn:E1; [lia|].
   destruct (n_events st <=? 0) eqn:E2; [lia|]. simpl.
@@ -74,18 +74,18 @@ Qed.
 Theorem iter_eq_spec_lemma : forall st k, readable st -> (forall k', k = Some k' -> 1 <= k') ->
   reader_iter st k = inr (spec_events st (zseq (n_events st))).
 Proof.
-  intros st k R Hk. pose proof R as [I [HP [HT Hn]]]. unfold reader_iter, iterate.
+  intros st k R Hk. pose proof R as [I [Hok [HP [HT Hn]]]]. unfold reader_iter, iterate.
   assert (Hk1 : 1 <= reader_k st k).
   { unfold reader_k. destruct k as [k'|]; simpl; [apply Hk; reflexivity | lia]. }
-  rewrite (iterate_fuel_spec st _ None None None _ 0 (n_events st) 1 I Hk1 (iter_init_all st R)).
+  rewrite (iterate_fuel_spec st _ None None None _ 0 (n_events st) 1 I Hok Hk1 (iter_init_all st R)).
   rewrite srange_all by lia. reflexivity.
 Qed.
 
 (* ------------------------------------------------------------------ integer indexing *)
 Theorem getitem_int_lemma : forall st key, readable st -> - n_events st <= key < n_events st ->
-  getitem_int st key = inr (read_obs st (key mod n_events st)).
+  getitem_int st key = inr (read_all_obs st (key mod n_events st)).
 Proof.
-  intros st key R Hkey. pose proof R as [I [HP [HT Hn]]]. unfold getitem_int.
+  intros st key R Hkey. pose proof R as [I [Hok [HP [HT Hn]]]]. unfold getitem_int.
   set (n := n_events st) in *.
   set (stop := if key =? -1 then n else key + 1).
   assert (Hinit : iter_init st (Some key) (Some stop) (Some 1) = inr (key mod n, key mod n + 1, 1)).
@@ -104,7 +104,7 @@ Proof.
     pose proof (Z.mod_pos_bound key n ltac:(lia)) as Hb.
     destruct (key mod n <? 0) eqn:F1; [lia|]. destruct (n <=? key mod n) eqn:F2; [lia|].
     destruct (key mod n + 1 <=? 0) eqn:F3; [lia|]. destruct (n <? key mod n + 1) eqn:F4; [lia|]. reflexivity. }
-  rewrite (iterate_fuel_spec st 1 _ _ _ 1%nat _ _ _ I ltac:(lia) Hinit).
+  rewrite (iterate_fuel_spec st 1 _ _ _ 1%nat _ _ _ I Hok ltac:(lia) Hinit).
   simpl. destruct (key mod n + 1 <=? key mod n) eqn:E; [lia|]. reflexivity.
 Qed.
 
@@ -120,7 +120,7 @@ Theorem getitem_slice_lemma : forall st k a b s, readable st ->
   0 <= a' -> a' < b' -> b' <= n -> 1 <= dflt s 1 ->
   getitem_slice st k a b s = inr (spec_events st (map (fun j => a' + j * dflt s 1) (zseq (nsel a' b' (dflt s 1))))).
 Proof.
-  intros st k a b s R Hk n a' b' Ha Hab Hb Hs. pose proof R as [I [HP [HT Hn]]].
+  intros st k a b s R Hk n a' b' Ha Hab Hb Hs. pose proof R as [I [Hok [HP [HT Hn]]]].
   unfold getitem_slice. fold n. fold (norm_bound n a 0). fold (norm_bound n b n). fold a'. fold b'.
   assert (Hinit : iter_init st a b s = inr (a', b', dflt s 1)).
   { unfold iter_init. unfold ex in HP. rewrite HP. destruct (thrown st) eqn:Et; [| congruence]. simpl. fold n.
@@ -130,7 +130,7 @@ Proof.
     destruct (dflt s 1 <=? 0) eqn:F5; [lia|]. reflexivity. }
   assert (Hk1 : 1 <= Z.min (reader_k st k) (b' - a')).
   { unfold reader_k. destruct k as [k'|]; simpl; [specialize (Hk k' eq_refl); lia | fold n; lia]. }
-  unfold iterate. rewrite (iterate_fuel_spec st _ a b s _ a' b' (dflt s 1) I Hk1 Hinit).
+  unfold iterate. rewrite (iterate_fuel_spec st _ a b s _ a' b' (dflt s 1) I Hok Hk1 Hinit).
   rewrite srange_closed; auto.
   assert (nsel a' b' (dflt s 1) <= b' - a').
   { unfold nsel. apply Z.div_le_upper_bound; nia. }
@@ -152,6 +152,15 @@ Proof.
   - rewrite reopen_id by auto. apply IH; auto.
 Qed.
 
+(* the writer never touches the analysis dataset *)
+Lemma ana_run_from : forall o d hd ops st, records_particles o = true -> inv st ->
+  ana (run_from o d hd st ops) = ana st.
+Proof.
+  intros o d hd ops. induction ops as [|x r IH]; intros st Hrp I; simpl; auto.
+  rewrite IH by (auto; apply step_inv; auto).
+  destruct x as [a|]; simpl; [apply add_ana; auto; apply rp_records; auto | reflexivity].
+Qed.
+
 Theorem run_readable : forall o d hd ops, records_particles o = true ->
   1 <= n_events (run o d hd ops) -> readable (run o d hd ops).
 Proof.
@@ -161,7 +170,9 @@ Proof.
     - apply inv_init.
     - unfold n_events, zlen. simpl. lia.
     - unfold run in Hn. fold (run_from o d hd init_state ops) in Hn. lia. }
-  split; [exact I|]. split; [apply (inv_thr _ I Ht)|]. split; [exact Ht | exact Hn].
+  split; [exact I|]. split; [| split; [apply (inv_thr _ I Ht)|]; split; [exact Ht | exact Hn]].
+  unfold run. fold (run_from o d hd init_state ops). intros e Hin.
+  rewrite (ana_run_from o d hd ops init_state Hrp inv_init) in Hin. simpl in Hin. contradiction.
 Qed.
 
 (* ------------------------------------------------------------------ append sessions *)
@@ -205,12 +216,5 @@ Proof.
   unfold spec_events. f_equal. apply map_ext. intro j. lia.
 Qed.
 
-(* the full statement (not proved; validated by the correspondence run): draining a generator
-   over readable files yields every file's events' particle tags in order, then StopIteration,
-   and the count after the last event is the sum of the files' total_thrown *)
+(* particle tags of event i as get_particle_info() exposes them *)
 Definition particle_tags_of (f : wstate) (i : Z) : list Z := map (fun r => nthZ r 0 0) (read_event f i P).
-Definition filegen_replays_statement : Prop :=
-  forall files k, 1 <= k -> Forall readable files -> files <> [] ->
-  exists items, filegen files k = inr (items, Some EStop) /\
-    map fst items = flat_map (fun f => map (particle_tags_of f) (zseq (n_events f))) files /\
-    (forall d, snd (last items d) = fold_right Z.add 0 (map tv files) \/ items = []).
